@@ -16,4 +16,9 @@ CLAIMED["C01"] = dict(
          "codecs; Coq theorems over all layouts/values (see Props/C01.v); model tied to /repo by the translator plus "
          "vm_compute correspondence of pack octets, unpacked values and lengths for every registered type each run",
     technique="machine-checked proof in Coq over translator-regenerated layout tables + model/implementation correspondence by vm_compute")
+CLAIMED["C09"] = dict(
+    text="Coq theorems about an executable model of Msg.Truncate/truncateLoop/popEdns0 (section prefixes, OPT retained, TC "
+         "iff dropped, no later section after a drop, fitting and TSIG messages untouched); the fit clause rests on C08; "
+         "model tied to /repo by vm_compute correspondence at the exact packed length of every prefix +-1 each run",
+    technique="machine-checked proof in Coq (case analysis over truncateLoop, induction over record lists) + model/implementation correspondence by vm_compute")
 NOT_YET = {}
